@@ -55,7 +55,10 @@ def main():
         if rc != 0:
             rep["suite_tail"] = out[-600:]
         place = os.path.join(root, meta["demo_place"])
-        shutil.copy(os.path.join(src, "demo_test.go"), place)
+        demo_src = os.path.join(src, "demo_test.go")
+        if not os.path.exists(demo_src):
+            demo_src = os.path.join(src, "demo_test.go.txt")  # a stored seed (/verif/seeded/<id>) evaluated again
+        shutil.copy(demo_src, place)
         rc, out = sh(meta["demo_cmd"], root)
         rep["demo_fails_with_patch"] = rc != 0
         rep["demo_output_with_patch"] = out[-700:]
@@ -104,8 +107,9 @@ def main():
         if ok:
             keep = os.path.join(VERIF, "seeded", sid)
             os.makedirs(keep, exist_ok=True)
-            shutil.copy(os.path.join(src, "patch.diff"), keep)
-            shutil.copy(os.path.join(src, "demo_test.go"), os.path.join(keep, "demo_test.go.txt"))
+            if os.path.abspath(src) != os.path.abspath(keep):
+                shutil.copy(os.path.join(src, "patch.diff"), keep)
+                shutil.copy(demo_src, os.path.join(keep, "demo_test.go.txt"))
             meta2 = dict(meta)
             try:  # keep hand-written notes of an earlier evaluation
                 old = json.load(open(os.path.join(keep, "meta.json")))
@@ -116,7 +120,7 @@ def main():
             meta2["id"] = sid
             meta2["written_by"] = "independent sub-agent given only the property text and a scratch worktree"
             meta2["confirmed"] = {k: rep[k] for k in ("applies", "compiles", "suite_passes", "demo_fails_with_patch", "demo_passes_without_patch")}
-            meta2["what_was_run"] = ["git apply patch.diff on a scratch copy of /repo", "go build ./...", "go test -vet=off -count=1 (all packages except mathext/zipf)", meta["demo_cmd"] + " with and without the patch"] + ["VERIF_REPO=<copy> ./run %s %s -> exit %s" % (p, t, v) for p, r in rep["checks"].items() for t, v in r.items() if t in ("quick", "thorough")]
+            meta2["what_was_run"] = ["git apply --3way patch.diff on a scratch clone of /repo (HEAD %s)" % subprocess.check_output(["git", "-C", "/repo", "rev-parse", "--short", "HEAD"], text=True).strip(), "go build ./...", "go test -vet=off -count=1 (all packages except mathext/zipf)", meta["demo_cmd"] + " with and without the patch"] + ["VERIF_REPO=<copy> ./run %s %s -> exit %s" % (p, t, v) for p, r in rep["checks"].items() for t, v in r.items() if t in ("quick", "thorough")]
             meta2["checks"] = rep["checks"]
             json.dump(meta2, open(os.path.join(keep, "meta.json"), "w"), indent=1)
         print(json.dumps(rep, indent=1))
